@@ -83,3 +83,10 @@ def _refusal(case, outd, v):
 
 
 TRIGGERS = {'enqueue_fn_refused_an_input': _refusal}
+
+
+def _enq_dead_unread(case, outd, v):
+    return 'enqueue_to_dead_with_unread_result' in outd['labels'] and not case.get('retry', True)
+
+
+TRIGGERS['enqueue_to_dead_worker_with_unread_result'] = _enq_dead_unread
